@@ -116,6 +116,8 @@ def real_step(s, first_name):
         return DF.set_primary_key(['a'])
     if k == 'set_pk_ab':
         return DF.set_primary_key(['a', 'b'], resources=0)
+    if k == 'join_rownum_full':
+        return DF.join('res_1', '{#}', 'res_2', '{#}', {'j': dict(name='b', aggregate='first')}, mode='full-outer')
     if k == 'join':
         return DF.join('res_1', ['a'], 'res_2', ['a'], {'j': dict(name=s['f'], aggregate=s['agg'])})
     raise ValueError(k)
